@@ -1,16 +1,173 @@
-(* C06 — Certificate metadata is a faithful function of the DER bytes. Property theorems only. *)
+(* C06 — Certificate metadata is a faithful function of the DER bytes.
+   Property theorems only; each is closed by [exact] of a lemma from proof/C06*.v.
+
+   Model (model/C06.v): [meta_of md5 sha1 sha256 sigok bs] = what x509.ParseCertificate
+   reports for the DER bytes [bs] (Raw* slices, fingerprints, Version, SelfSigned, no-CT
+   fingerprint); [cert_parts bs] = the walk over certificate / tbsCertificate that delimits
+   the fields; [elem_at path bs] = the raw element at a path of child indices in the DER
+   tree of [bs] (independent navigation); the hashes and [sigok] (the certificate's
+   signature verifies under its own key) are parameters. *)
 From Coq Require Import List NArith ZArith Bool.
 From Verif Require Import Harness.
 From VerifModel Require Import C22Tlv C06.
+From VerifProof Require Import C22TlvProofs C06Proofs C06NoctProofs.
 Import ListNotations.
+Open Scope N_scope.
 
-Theorem C06_placeholder : forall md5 sha1 sha256 sigok bs m,
-  meta_of md5 sha1 sha256 sigok bs = Some m -> m_raw m = bs.
-Proof.
-  exact (fun md5 sha1 sha256 sigok bs m =>
-    match cert_parts bs as o return (match o with Some (raw_tbs, p) => Some (mkMeta bs raw_tbs (p_issuer_raw p) (p_subject_raw p) (p_spki_raw p) (p_version p + 1)%Z (bytes_eqb (p_subject_raw p) (p_issuer_raw p) && sigok bs) (md5 bs) (sha1 bs) (sha256 bs) (sha256 (p_spki_raw p)) (sha256 raw_tbs) (sha256 (noct_tbs p)) (sha256 (p_spki_raw p ++ p_subject_raw p))) | None => None end = Some m -> m_raw m = bs) with
-    | Some (r, p) => fun H => match H in _ = y return match y with Some m' => m_raw m' = bs | None => True end with eq_refl => eq_refl end
-    | None => fun H => match H in _ = y return match y with Some _ => False | None => True end with eq_refl => I end
-    end).
-Qed.
-Print Assumptions C06_placeholder.
+(* the reported raw fields are what the walk delimited; Version = walked version + 1 *)
+Theorem C06_meta_raw_fields : forall md5 sha1 sha256 sigok bs m,
+  meta_of md5 sha1 sha256 sigok bs = Some m ->
+  exists raw_tbs p, cert_parts bs = Some (raw_tbs, p) /\
+    m_raw m = bs /\ m_raw_tbs m = raw_tbs /\ m_raw_issuer m = p_issuer_raw p /\
+    m_raw_subject m = p_subject_raw p /\ m_raw_spki m = p_spki_raw p /\
+    m_version m = (p_version p + 1)%Z.
+Proof. exact meta_raw_fields. Qed.
+Print Assumptions C06_meta_raw_fields.
+
+(* every raw field is the exact sub-encoding at its path: whole certificate = child 0 of the
+   input, TBS = its child 0; below the TBS, serial / signature algorithm / issuer / validity /
+   subject / SPKI are children k..k+5, k = 1 iff the version element is present; the whole
+   input and the TBS are single self-contained TLVs.  Premise for the fields after the
+   version: the version element as Go delimits it is child 0 of the TBS (parseField does not
+   compare the length of the EXPLICIT [0] wrapper with the INTEGER inside it). *)
+Theorem C06_raw_are_subencodings : forall bs raw_tbs p,
+  cert_parts bs = Some (raw_tbs, p) ->
+  elem_at [0%nat] bs = Some bs /\
+  elem_at [0; 0]%nat bs = Some raw_tbs /\
+  single_tlv bs /\ single_tlv raw_tbs /\
+  ((vk p = 1%nat -> elem_at [0; 0; 0]%nat bs = Some (p_version_raw p)) ->
+   elem_at [0; 0; vk p]%nat bs = Some (p_serial_raw p) /\
+   elem_at [0; 0; vk p + 1]%nat bs = Some (p_sigalg_raw p) /\
+   elem_at [0; 0; vk p + 2]%nat bs = Some (p_issuer_raw p) /\
+   elem_at [0; 0; vk p + 3]%nat bs = Some (p_validity_raw p) /\
+   elem_at [0; 0; vk p + 4]%nat bs = Some (p_subject_raw p) /\
+   elem_at [0; 0; vk p + 5]%nat bs = Some (p_spki_raw p)).
+Proof. exact raw_at_paths. Qed.
+Print Assumptions C06_raw_are_subencodings.
+
+(* what "element" means: the raw slice followed by the rest is the input, the slice is
+   header ++ content with the content length the header announces, and it parses to the
+   same header and content whatever follows it *)
+Theorem C06_element_is_exact_tlv : forall bs t c raw rest,
+  next bs = Some (t, c, raw, rest) ->
+  bs = raw ++ rest /\
+  exists h, raw = h ++ c /\ (2 <= length h)%nat /\ N.of_nat (length c) = t_len t /\
+            forall rest', next (raw ++ rest') = Some (t, c, raw, rest').
+Proof. exact next_spec. Qed.
+Print Assumptions C06_element_is_exact_tlv.
+
+(* fingerprints are the named hashes of those bytes *)
+Theorem C06_fingerprints_are_hashes : forall md5 sha1 sha256 sigok bs m,
+  meta_of md5 sha1 sha256 sigok bs = Some m ->
+  m_raw m = bs /\
+  m_fp_md5 m = md5 (m_raw m) /\ m_fp_sha1 m = sha1 (m_raw m) /\ m_fp_sha256 m = sha256 (m_raw m) /\
+  m_fp_spki m = sha256 (m_raw_spki m) /\ m_fp_tbs m = sha256 (m_raw_tbs m) /\
+  m_fp_spki_subject m = sha256 (m_raw_spki m ++ m_raw_subject m) /\
+  exists raw_tbs p, cert_parts bs = Some (raw_tbs, p) /\ m_fp_noct m = sha256 (noct_tbs p).
+Proof. exact fingerprints_are_hashes. Qed.
+Print Assumptions C06_fingerprints_are_hashes.
+
+(* the version is the encoded version plus one: absent = 0, otherwise the two's complement
+   value of the INTEGER inside the [0] element of the TBS *)
+Theorem C06_version_is_encoded : forall bs raw_tbs p,
+  cert_parts bs = Some (raw_tbs, p) ->
+  (p_version_raw p = [] /\ p_version p = 0%Z) \/
+  (exists c1 t r t2 b2 c2,
+     single_tlv raw_tbs /\ (exists t1, next raw_tbs = Some (t1, c1, raw_tbs, [])) /\
+     parse_tl c1 = Some (t, r) /\ t_class t = 2 /\ t_tag t = 0 /\
+     take_tlv r = Some (t2, b2, c2) /\ hdr_is t2 0 false 2 = true /\
+     int64_val b2 = Some (p_version p)).
+Proof. exact version_is_encoded. Qed.
+Print Assumptions C06_version_is_encoded.
+
+Theorem C06_integer_value : forall c z,
+  int64_val c = Some z ->
+  c <> [] /\ (length c <= 8)%nat /\
+  z = if (hd 0 c <? 128)%N then Z.of_N (be_val c)
+      else (Z.of_N (be_val c) - 2 ^ (8 * Z.of_nat (length c)))%Z.
+Proof. exact int64_val_spec. Qed.
+Print Assumptions C06_integer_value.
+
+(* self-signed exactly when issuer equals subject and the signature verifies under the own key *)
+Theorem C06_self_signed_iff : forall md5 sha1 sha256 sigok bs m,
+  meta_of md5 sha1 sha256 sigok bs = Some m ->
+  (m_self_signed m = true <-> m_raw_issuer m = m_raw_subject m /\ sigok bs = true).
+Proof. exact self_signed_iff. Qed.
+Print Assumptions C06_self_signed_iff.
+
+(* ValidityPeriod is notAfter - notBefore in seconds (civil dates of the canonical time forms) *)
+Theorem C06_validity_is_difference : forall md5 sha1 sha256 sigok bs m v,
+  meta_of md5 sha1 sha256 sigok bs = Some m -> m_validity m = Some v ->
+  exists raw_tbs p tv c rest t1 c1 r1 t2 c2 r2 rest2 a b,
+    cert_parts bs = Some (raw_tbs, p) /\
+    next (p_validity_raw p) = Some (tv, c, rest, []) /\ rest = p_validity_raw p /\
+    take_elems 2 c = Some ([(t1, c1, r1); (t2, c2, r2)], rest2) /\
+    time_secs (t_tag t1) c1 = Some a /\ time_secs (t_tag t2) c2 = Some b /\ v = (b - a)%Z.
+Proof. exact validity_is_difference. Qed.
+Print Assumptions C06_validity_is_difference.
+
+Theorem C06_civil_time_vectors :
+  days_from_civil 1970 1 1 = 0%Z /\ days_from_civil 2000 3 1 = 11017%Z /\
+  days_from_civil 1950 1 1 = (-7305)%Z /\ days_from_civil 9999 12 31 = 2932896%Z /\
+  time_secs 23 [50;53;48;49;48;49;48;48;48;48;48;48;90] = Some 1735689600%Z /\
+  time_secs 24 [57;57;57;57;49;50;51;49;50;51;53;57;53;57;90] = Some 253402300799%Z /\
+  time_secs 23 [50;51;48;50;50;57;48;48;48;48;48;48;90] = None.
+Proof. exact civil_time_vectors. Qed.
+Print Assumptions C06_civil_time_vectors.
+
+(* canonically encoded certificates (any fields [s], any extension list [x], any signature
+   part [tail], total size below the decoder's 2^31 limit): the walk recovers the fields and
+   the no-CT fingerprint is the hash of the canonical TBS carrying exactly the non-CT
+   extensions (with an extension block even when none is left) *)
+Theorem C06_canonical_certificate : forall md5 sha1 sha256 sigok s x tail,
+  wf_src s -> wf_exts (exts_list x) -> small (cert_of s x tail) ->
+  exists m, meta_of md5 sha1 sha256 sigok (cert_of s x tail) = Some m /\
+    m_raw_tbs m = tlv 0 true 16 (tbs_content s x) /\
+    m_raw_issuer m = enc_elem (s_issuer s) /\ m_raw_subject m = enc_elem (s_subject s) /\
+    m_raw_spki m = tlv 0 true 16 (s_spki s) /\ m_version m = (ver_val s + 1)%Z /\
+    m_fp_noct m =
+    sha256 (tlv 0 true 16 (tbs_content s (Some (filter (fun e => negb (ext_is_ct e)) (exts_list x))))).
+Proof. exact meta_of_built. Qed.
+Print Assumptions C06_canonical_certificate.
+
+(* adding or removing the CT poison / SCT-list extension does not change the no-CT fingerprint:
+   two canonical certificates with the same fields (signatures may differ) whose extension
+   lists agree once the CT extensions are dropped *)
+Theorem C06_noct_invariant : forall md5 sha1 sha256 sigok s x1 x2 tail1 tail2,
+  wf_src s -> wf_exts (exts_list x1) -> wf_exts (exts_list x2) ->
+  small (cert_of s x1 tail1) -> small (cert_of s x2 tail2) ->
+  filter (fun e => negb (ext_is_ct e)) (exts_list x1) = filter (fun e => negb (ext_is_ct e)) (exts_list x2) ->
+  exists m1 m2,
+    meta_of md5 sha1 sha256 sigok (cert_of s x1 tail1) = Some m1 /\
+    meta_of md5 sha1 sha256 sigok (cert_of s x2 tail2) = Some m2 /\
+    m_fp_noct m1 = m_fp_noct m2.
+Proof. exact noct_invariant. Qed.
+Print Assumptions C06_noct_invariant.
+
+(* in particular a CT extension inserted at any index *)
+Theorem C06_noct_ct_inserted : forall md5 sha1 sha256 sigok s l i ct tail1 tail2,
+  wf_src s -> wf_exts l -> wf_exts [ct] -> ext_is_ct ct = true ->
+  small (cert_of s (Some l) tail1) -> small (cert_of s (Some (insert_at i ct l)) tail2) ->
+  exists m1 m2,
+    meta_of md5 sha1 sha256 sigok (cert_of s (Some l) tail1) = Some m1 /\
+    meta_of md5 sha1 sha256 sigok (cert_of s (Some (insert_at i ct l)) tail2) = Some m2 /\
+    m_fp_noct m1 = m_fp_noct m2.
+Proof. exact noct_ct_inserted. Qed.
+Print Assumptions C06_noct_ct_inserted.
+
+(* non-vacuity: a concrete canonical certificate meets every hypothesis, both CT extension
+   identifiers are recognised, and the poison extension is dropped at index 0, 1 and 2 *)
+Theorem C06_nonvacuous :
+  wf_src ex_src /\ wf_exts [ex_ski; ex_bc] /\ wf_exts [ex_poison] /\ wf_exts [ex_scts] /\
+  ext_is_ct ex_poison = true /\ ext_is_ct ex_scts = true /\
+  ext_is_ct ex_ski = false /\ ext_is_ct ex_bc = false /\
+  small (cert_of ex_src (Some (insert_at 1 ex_poison [ex_ski; ex_bc])) [48;0;3;1;0]) /\
+  small (cert_of ex_src (Some [ex_ski; ex_bc]) [48;0;3;2;0;7]).
+Proof. exact ex_wf. Qed.
+Print Assumptions C06_nonvacuous.
+
+Theorem C06_nonvacuous_drop : forall i, (i <= 2)%nat ->
+  option_map noct_tbs (option_map snd (cert_parts (cert_of ex_src (Some (insert_at i ex_poison [ex_ski; ex_bc])) [48;0;3;1;0]))) =
+  Some (tlv 0 true 16 (tbs_content ex_src (Some [ex_ski; ex_bc]))).
+Proof. exact ex_noct_drops_poison. Qed.
+Print Assumptions C06_nonvacuous_drop.
